@@ -88,6 +88,16 @@ func (i *IRCServer) cmdJoin(s *Session, reply *Replyctx, msg *irc.Message) {
 				captchaChallengesSent.Inc()
 				continue
 			}
+			// The captcha takes the place of the channel key, but it does
+			// not override bans.
+			if banned(c.bans, s.ircPrefix.String(), s.Nick+"!"+s.Username+"@"+s.RemoteAddr) {
+				i.sendUser(s, reply, &irc.Message{
+					Prefix:  i.ServerPrefix,
+					Command: irc.ERR_BANNEDFROMCHAN,
+					Params:  []string{s.Nick, c.name, "Cannot join channel (+b)"},
+				})
+				continue
+			}
 		} else if banned(c.bans, s.ircPrefix.String(), s.Nick+"!"+s.Username+"@"+s.RemoteAddr) {
 			i.sendUser(s, reply, &irc.Message{
 				Prefix:  i.ServerPrefix,
